@@ -361,6 +361,11 @@ func (c *Config) validateCircuitBreaker() error {
 		if c.CircuitBreaker.IntervalSeconds <= 0 {
 			return fmt.Errorf("circuit breaker interval must be positive (got %d)", c.CircuitBreaker.IntervalSeconds)
 		}
+		// 0 leaves the half-open trial budget to its default; the balancer converts the value
+		// to an unsigned number, which would turn a negative one into billions of trials
+		if c.CircuitBreaker.MaxRequests < 0 {
+			return fmt.Errorf("circuit breaker max requests must be non-negative (got %d)", c.CircuitBreaker.MaxRequests)
+		}
 	}
 	return nil
 }
